@@ -260,7 +260,7 @@ def main(tier):
     rep.assumptions = ['no trivia is inserted inside string literals (generated programs have no multi-line strings; samples with doc-strings or odd quote counts are skipped)',
                        'comments are not transpiled, so the emitted bytes must be identical']
     replay_entries(rep)
-    nprog, stride = (60, 14) if tier == 'quick' else (1200, 2)
+    nprog, stride = (60, 14) if tier == 'quick' else (800, 3)
     for d in run_shards(shard, (nprog, stride)):
         rep.merge(d)
     kinds = [k for k in rep.cov if k.startswith('placement:')]
